@@ -25,6 +25,7 @@ From Coq Require Import List NArith ZArith Bool Sorted.
 From Verif Require Import Lib.Bytes Lib.Assoc Model.App Model.DKGPure Model.DKGDriver Model.Outbox.
 From Verif Require Import Proofs.DKGChain Proofs.DKGExamples Proofs.OutboxEvolve Proofs.OutboxCoh Proofs.Outbox
      Proofs.OutboxRun Proofs.OutboxApp Proofs.OutboxExamples.
+From Verif Require Import Generated.DkgPhase Proofs.DkgPhase.
 Import ListNotations.
 Open Scope Z_scope.
 
@@ -230,3 +231,14 @@ Example C08_single_commitment_partial_nonvacuous :
   exists w, ObEx.run_ops (firstn 6 ObEx.ops) = Some w /\
             In (MCommit 1%N 10%N) (map (fun r => snd (snd r)) (db_outbox _ _ _ (o_db (w_o w)))).
 Proof. vm_compute. eexists. split; [reflexivity|]. right. left. reflexivity. Qed.
+
+(* The phase function the block transaction uses is the one generated from
+   keyper/dkgphase/phase.go on every check (see C07_phase_function_agrees_with_source). *)
+Theorem C08_phase_function_agrees_with_source :
+  forall L height start : Z, phase_at L height start = gen_phase_at L height start.
+Proof. exact phase_at_is_generated. Qed.
+Print Assumptions C08_phase_function_agrees_with_source.
+
+Example C08_phase_function_agrees_with_source_nonvacuous :
+  gen_phase_at 7 9 9 = Dealing /\ gen_phase_at 7 30 9 = Finalized.
+Proof. split; reflexivity. Qed.
